@@ -264,6 +264,20 @@ def _check_output_bit(rep: Report, L: Any, nid: int, nm: str) -> None:
             found = lx.show(ir)
             co = strip(arg)
             branches = [L.cu.src_of(x) for x in co.get('inner', [])[1:]] if co.get('kind') == 'ConditionalOperator' else []
+            if co.get('kind') == 'DeclRefExpr':
+                # an if-converted local: `if (C) v = Py_True; else v = Py_False;` right before the call reads as `C ? Py_True : Py_False`
+                vname = co['referencedDecl']['name']
+                for ifs in [x for x in walk(L.cu.body(L.fname)) if x.get('kind') == 'IfStmt' and len(x.get('inner', [])) == 3]:
+                    arms = []
+                    for arm in ifs['inner'][1:]:
+                        asg = [y for y in walk(arm) if is_assign(y) and L.cu.src_of(y['inner'][0]) == vname]
+                        others = [y for y in walk(arm) if y.get('kind') in ('CallExpr', 'GotoStmt', 'ReturnStmt')]
+                        arms.append(L.cu.src_of(asg[0]['inner'][1]) if len(asg) == 1 and not others else None)
+                    all_defs = [y for y in walk(L.cu.body(L.fname)) if is_assign(y) and L.cu.src_of(y['inner'][0]) == vname]
+                    if None not in arms and len(all_defs) == 2:
+                        branches = arms
+                        ir = ('cond', c_ir(ifs['inner'][0], L.cu.src_of), ('sym', arms[0]), ('sym', arms[1]))
+                        found = f'{L.cu.src_of(ifs["inner"][0])} ? {arms[0]} : {arms[1]} (via {vname})'
             if ir[0] == 'cond' and branches == ['Py_True', 'Py_False']:
                 try:
                     iv = lx.solve(ir[1], var, L.env, unsigned=True)
@@ -649,10 +663,10 @@ def rule_term(rep: Report, repo: Repo, cu: CUnit) -> None:
     # the statements after the engine call dispatch on `cause`; each TERM_* constant is followed through the dispatch (if chain,
     # membership in a local table, table lookup) to the TerminationCause it returns
     for name in M.TERM_MAP:
-        ret = dispatch_return(fn.body, 'cause', f'_fjcore.{name}')
+        ret = dispatch_return(fn.body, 'cause', f'_fjcore.{name}', repo, RUN_REL)
         tc = [dotted(x) for x in ast.walk(ret) if dotted(x).startswith('TerminationCause.')] if ret is not None else []
         mapped[name] = tc[0].split('.')[1] if tc else None
-    other = dispatch_return(fn.body, 'cause', '<any other value>')
+    other = dispatch_return(fn.body, 'cause', '<any other value>', repo, RUN_REL)
     fallthrough = None
     if other is not None:
         tc = [dotted(x) for x in ast.walk(other) if dotted(x).startswith('TerminationCause.')]
